@@ -416,36 +416,43 @@ def execute(plan, ctx):
                               f'got row0 {got[0].tolist()} expected {exp[0].tolist()}')
                 return
         ctx.probe('exact_rdm_checked')
-        r = None
         if plan['noise'] == 0 and plan['design'] not in ('matrix', 'matrix_mixed'):
             from rsatoolbox.rdm import calc_rdm
-            try:
-                d_est = ds[0]
-                if theta is not None:
-                    # (calc_rdm does not take datasets whose dataset-level descriptors hold arrays -- the theta of a weighted
-                    #  model: the estimate is made from the same measurements and condition vector without that entry)
-                    from rsatoolbox.data import Dataset
-                    d_est = Dataset(np.array(ds[0].measurements, copy=True), obs_descriptors={'cond_vec': np.array(ds[0].obs_descriptors['cond_vec'], copy=True)},
-                                    descriptors={k: v for k, v in ds[0].descriptors.items() if k != 'theta'})
-                r = calc_rdm(d_est, method='euclidean', descriptor='cond_vec')
-            except Exception:
-                # calc_rdm is C01's primitive; it rejects datasets whose dataset-level descriptors are arrays
-                # (theta of a weighted model) -- observed, not judged here
-                ctx.probe('calc_rdm_failed_not_judged')
-                r = None
-        if plan['noise'] == 0 and plan['design'] not in ('matrix', 'matrix_mixed') and r is not None:
-            lab = np.asarray(r.pattern_descriptors['cond_vec'], dtype=float)
-            mat = r.get_matrices()[0]
-            for i in range(nc):
-                for j in range(nc):
-                    ki = int(np.where(labels == lab[i])[0][0])
-                    kj = int(np.where(labels == lab[j])[0][0])
-                    if abs(mat[i, j] - exp[ki, kj]) > tol * scale:
-                        ctx.violation('sim_ref.clause1', 'make_dataset:calc_rdm-consistency',
-                                      f'calc_rdm(euclidean, cond_vec) of zero-noise exact data: pair of labels ({lab[i]},{lab[j]}) has '
-                                      f'{mat[i, j]}, signal*model gives {exp[ki, kj]}')
-                        return
-            ctx.probe('calc_rdm_consistency_checked')
+            # "simulation and RDM estimation are mutually consistent": the estimate from every simulated dataset, one
+            # after the other (an estimate must not disturb the datasets still to be estimated from)
+            for s in range(n_sim):
+                try:
+                    d_est = ds[s]
+                    if theta is not None and not isinstance(theta, int):
+                        # (calc_rdm does not take datasets whose dataset-level descriptors hold arrays -- the theta of a
+                        #  weighted model: the estimate is made from the same measurements and condition vector without it)
+                        from rsatoolbox.data import Dataset
+                        d_est = Dataset(np.array(ds[s].measurements, copy=True), obs_descriptors={'cond_vec': np.array(ds[s].obs_descriptors['cond_vec'], copy=True)},
+                                        descriptors={k: v for k, v in ds[s].descriptors.items() if k != 'theta'})
+                    r = calc_rdm(d_est, method='euclidean', descriptor='cond_vec')
+                except Exception:
+                    # calc_rdm is C01's primitive -- observed, not judged here
+                    ctx.probe('calc_rdm_failed_not_judged')
+                    break
+                lab = np.asarray(r.pattern_descriptors['cond_vec'], dtype=float)
+                mat = r.get_matrices()[0]
+                for i in range(nc):
+                    for j in range(nc):
+                        ki = int(np.where(labels == lab[i])[0][0])
+                        kj = int(np.where(labels == lab[j])[0][0])
+                        if abs(mat[i, j] - exp[ki, kj]) > tol * scale:
+                            ctx.violation('sim_ref.clause1', 'make_dataset:calc_rdm-consistency',
+                                          f'calc_rdm(euclidean, cond_vec) of zero-noise exact data, simulation {s}: pair of labels '
+                                          f'({lab[i]},{lab[j]}) has {mat[i, j]}, signal*model gives {exp[ki, kj]}')
+                            return
+                ctx.probe('calc_rdm_consistency_checked')
+            for s, d in enumerate(ds):
+                od = d.obs_descriptors.get('cond_vec')
+                if od is None or not np.array_equal(np.asarray(od, dtype=float), np.asarray(cv, dtype=float)):
+                    ctx.violation('sim_ref.clause2', 'make_dataset:cond_vec:after-estimation',
+                                  f'dataset {s} no longer carries the condition vector it was simulated with after RDMs were estimated '
+                                  f'from the simulated datasets: {np.asarray(od).tolist()} vs {np.asarray(cv).tolist()}')
+                    return
     # ---- clause 4: additivity and sqrt scaling by replay of the identical draw history
     v1, v2 = 1.0, float(plan['noise2'])
     try:
